@@ -2,6 +2,7 @@ package rules
 
 import (
 	"fmt"
+	"go/constant"
 	"go/token"
 	"go/types"
 	"sort"
@@ -183,6 +184,10 @@ func checkKeyInjective(r1 *core.RuleRun, c *tplCache) {
 				}
 				if strings.Contains(n, "hash") || strings.Contains(n, "Sum") || strings.Contains(n, "crc") || strings.Contains(n, "fnv") || strings.Contains(n, "md5") || strings.Contains(n, "sha") {
 					lossy = "hash function " + n
+				} else if _, isBuiltin := x.Common().Value.(*ssa.Builtin); !isBuiltin && !injectiveKeyCalls[n] && lossy == "" {
+					// (net.IP).To4 maps every non-IPv4 address to nil, Mask and DefaultMask drop bits, ...: only
+					// conversions known to keep distinct inputs distinct may stand between the address/id and the key
+					lossy = "call of " + short(n) + ", which is not known to keep distinct addresses/ids distinct"
 				}
 			case *ssa.Convert:
 				sb, ok1 := x.X.Type().Underlying().(*types.Basic)
@@ -215,6 +220,87 @@ func checkKeyInjective(r1 *core.RuleRun, c *tplCache) {
 				"address text and id text are concatenated without a separator: \"10.0.0.1\"+\"256\" equals \"10.0.0.12\"+\"56\"")
 		}
 	})
+}
+
+// injectiveKeyCalls: library conversions that map distinct (valid) addresses / integers to distinct results.
+var injectiveKeyCalls = map[string]bool{
+	"(net.IP).String": true, "(net.IP).To16": true, "(net.IP).MarshalText": true,
+	"strconv.Itoa": true, "strconv.FormatInt": true, "strconv.FormatUint": true, "strconv.AppendInt": true, "strconv.AppendUint": true,
+	"fmt.Sprintf": true, "fmt.Sprint": true, "encoding/hex.EncodeToString": true,
+}
+
+// checkRetrieveComplete: the cache's lookup reports "not found" only when the map has no entry. Every boolean it
+// returns is the map lookup's own comma-ok (or a constant on a branch that tested it): a lookup that gives up early
+// (TryRLock, a size cut-off, an age test) reports an announced template as unknown and the exporter's data set is
+// skipped.
+func checkRetrieveComplete(rr *core.RuleRun, c *tplCache) {
+	name := core.FuncName(c.retrieve)
+	var okV ssa.Value
+	allInstrs(c.retrieve, func(ins ssa.Instruction) {
+		if lk, isLk := ins.(*ssa.Lookup); isLk && lk.CommaOk {
+			if _, isMap := c.mapBase(lk.X); isMap {
+				okV = extractOf(lk, 1)
+			}
+		}
+	})
+	if okV == nil {
+		rr.Undecided(name+":lookup", c.retrieve.Pos(), "comma-ok lookup of the template map not found in retrieve")
+		return
+	}
+	good, why := true, ""
+	var leaf func(v ssa.Value, at *ssa.BasicBlock, seen map[ssa.Value]bool)
+	leaf = func(v ssa.Value, at *ssa.BasicBlock, seen map[ssa.Value]bool) {
+		switch x := v.(type) {
+		case *ssa.Const:
+			if x.Value == nil || x.Value.Kind() != constant.Bool {
+				good, why = false, "non-boolean result"
+				return
+			}
+			// a constant is the lookup's result when this block is only reached with ok equal to it
+			if !contradictsFact(at, okV, false, !constant.BoolVal(x.Value)) {
+				good, why = false, fmt.Sprintf("returns the constant %v on a path that does not depend on the map lookup", constant.BoolVal(x.Value))
+			}
+		case *ssa.Phi:
+			if seen[x] {
+				return
+			}
+			seen[x] = true
+			for i, e := range x.Edges {
+				if i < len(x.Block().Preds) {
+					leaf(e, x.Block().Preds[i], seen)
+				}
+			}
+		default:
+			// a result spilled because of a defer: every value stored into the result variable
+			if u, isLoad := v.(*ssa.UnOp); isLoad && u.Op == token.MUL && !seen[v] {
+				if a, isAlloc := u.X.(*ssa.Alloc); isAlloc {
+					seen[v] = true
+					stores := 0
+					allInstrs(c.retrieve, func(i2 ssa.Instruction) {
+						if st, isSt := i2.(*ssa.Store); isSt && st.Addr == ssa.Value(a) {
+							stores++
+							leaf(st.Val, st.Block(), seen)
+						}
+					})
+					if stores > 0 {
+						return
+					}
+				}
+			}
+			if v != okV {
+				good, why = false, "result is not the map lookup's ok"
+			}
+		}
+	}
+	n := 0
+	allInstrs(c.retrieve, func(ins ssa.Instruction) {
+		if r, isRet := ins.(*ssa.Return); isRet && len(r.Results) == 2 {
+			n++
+			leaf(r.Results[1], r.Block(), map[ssa.Value]bool{})
+		}
+	})
+	rr.Check(good && n > 0, name+":found-iff-present", c.retrieve.Pos(), "the found result is the map lookup's own ok on every path",
+		"retrieve can report a cached template as missing ("+why+"): data of an announced template is then skipped as unknown, depending on timing or on something other than the cache's content")
 }
 
 func intBits(b *types.Basic) int {
